@@ -36,6 +36,7 @@ class G:
         self.max_depth = max_depth
         self.optional_caller = 40
         self.topdefs = {}
+        self._forced = []  # argument expressions the next simple_arg() calls must return
 
     def uid(self, p="v"):
         self.n += 1
@@ -115,6 +116,8 @@ class G:
         raise AssertionError(kind)
 
     def simple_arg(self, sc):
+        if self._forced:
+            return self._forced.pop()
         opts = ["1", "'s'", "cs", "cn"]
         opts += [v for v, _ in sc.vars[-3:]]
         return self.pick(opts)
@@ -424,6 +427,9 @@ class G:
             wants_caller = "ccall" in self.f and self.chance(50) and not flags.get("decorator")
         if wants_caller:
             bargs = [self.uid("b") for _ in range(self.int(0, 2))]
+            if bargs and self.chance(25):
+                # a body argument named like a context variable that is read nowhere but in the call's own arguments
+                bargs[0] = "cx%d" % self.int(0, 1)
             cdefs = {}
             if self.chance(30):
                 cdefs[self.uid("n")] = {"req": [self.uid("q")] if self.chance(50) else [], "opt": [], "star": False,
@@ -478,6 +484,9 @@ class G:
             spelling = "ns"  # (defs with *args - hence keyword-only parameters - are called with the <%call> spelling)
         node = {"t": "ccall", "spelling": spelling, "ns": self.pick(["self", "local"]), "target": name,
                 "body_args": ", ".join(wc["body_args"]) or None, "body": body, "defs": defs}
+        cx = [a for a in wc["body_args"] if a.startswith("cx")]
+        if cx and info["req"]:
+            self._forced = [self.pick([cx[0], "%s + '!'" % cx[0], "ident(%s)" % cx[0]])]
         if spelling == "call":
             node["callargs"] = self.callargs(sc, info)
         else:
@@ -494,6 +503,7 @@ class G:
                          "ident('') or ident(cs)", "cn > 2 and ident(cs)"] + [v for v, ty in sc.vars[-2:] if ty == "str"])
                 attrs.append([p, kind, v])
             node["attrs"] = attrs
+        self._forced = []
         return node
 
 
